@@ -38,6 +38,7 @@ type RevPlan struct {
 	Shuffle uint64 `json:"shuffle,omitempty"`
 	LenInStm bool  `json:"len_in_stm,omitempty"`
 	NoHead   bool  `json:"no_head,omitempty"` // the update does not rewrite object 0's entry when it frees objects
+	BulkRanges [][2]int `json:"bulk_ranges,omitempty"` // (offset, length) runs of the bulk objects rewritten by this update
 }
 
 type LStep struct {
@@ -50,6 +51,7 @@ type Spec struct {
 	Seed    uint64    `json:"seed"`
 	N       int       `json:"n"`
 	EOL     int       `json:"eol,omitempty"`
+	Bulk    int       `json:"bulk,omitempty"` // extra plain objects in revision 0: cross-reference data longer than any read buffer
 	Tight   bool      `json:"tight,omitempty"`
 	Revs    []RevPlan `json:"revs"`
 	History [][]LStep `json:"history"`
@@ -167,12 +169,22 @@ func (p *Prop) Generate(base uint64, index int, env *sim.Env) *sim.Case {
 		sp.EOL = r.Intn(3)
 	}
 	sp.Tight = r.Pct(25)
+	if r.Pct(8) {
+		// a few hundred objects: the cross-reference table or stream spans several read buffers,
+		// with every end-of-line style and many alignments of entries against buffer boundaries
+		// (the holes of the playground split the table into subsections of varying length)
+		sp.Bulk = 150 + r.Intn(900)
+		sp.EOL = sim.Pick(r, []int{0, 1, 1, 2})
+	}
 	nrev := 1 + r.Intn(5)
 	streamFrom := nrev + 1 // table ... then stream from revision streamFrom on
 	if r.Pct(60) {
 		streamFrom = r.Intn(nrev + 1)
 	}
 	live := map[int]bool{}
+	kindOf := map[int]int{}
+	peerHeavy := r.Pct(10)
+	var uncleanAt [][]int // per revision: live objects whose references lead to a deleted or undefined object
 	for rev := 0; rev < nrev; rev++ {
 		rp := RevPlan{Stream: rev >= streamFrom, Conts: 1 + r.Intn(2), StmZ: r.Bool(), XRefZ: r.Intn(3), LenInStm: r.Bool()}
 		if r.Pct(50) {
@@ -186,14 +198,49 @@ func (p *Prop) Generate(base uint64, index int, env *sim.Env) *sim.Case {
 			num := firstPlay + o
 			switch {
 			case rev == 0 && r.Pct(70), rev > 0 && r.Pct(30):
-				rp.Ops = append(rp.Ops, ObjOp{Num: num, Kind: r.Intn(numKinds), InStm: r.Pct(60)})
+				kind := r.Intn(numKinds)
+				if peerHeavy && r.Pct(60) {
+					kind = 9 + r.Intn(2)
+				}
+				rp.Ops = append(rp.Ops, ObjOp{Num: num, Kind: kind, InStm: r.Pct(60)})
 				live[num] = true
+				kindOf[num] = kind
 			case live[num] && r.Pct(25):
 				rp.Ops = append(rp.Ops, ObjOp{Num: num, Del: true})
 				live[num] = false
 			}
 		}
+		if rev > 0 && sp.Bulk > 0 && r.Pct(80) {
+			// sparse updates: short runs (subsections of their own, which shift everything after
+			// them by a few bytes) and long ones (which cross read-buffer boundaries)
+			for k, m := 0, 1+r.Intn(6); k < m; k++ {
+				off := r.Intn(sp.Bulk)
+				ln := 1 + r.Intn(3)
+				if r.Bool() {
+					ln = 1 + r.Intn(sp.Bulk-off)
+				}
+				rp.BulkRanges = append(rp.BulkRanges, [2]int{off, ln})
+			}
+		}
 		sp.Revs = append(sp.Revs, rp)
+		var uc []int
+		for o := 0; o < sp.N; o++ {
+			num := firstPlay + o
+			if !live[num] {
+				continue
+			}
+			switch kindOf[num] {
+			case 9:
+				if !live[firstPlay+num%sp.N] {
+					uc = append(uc, num)
+				}
+			case 10:
+				if !live[firstPlay+num%sp.N] || !live[firstPlay+(num+1)%sp.N] {
+					uc = append(uc, num)
+				}
+			}
+		}
+		uncleanAt = append(uncleanAt, uc)
 	}
 	faulty := r.Pct(25)
 	if faulty {
@@ -230,11 +277,25 @@ func (p *Prop) Generate(base uint64, index int, env *sim.Env) *sim.Case {
 		if r.Pct(10) {
 			n = 40
 		}
+		// a long-lived resolver asked many times, many of the questions failing: whatever it
+		// counts or remembers per question must be given back on every way out
+		hammer := r.Pct(4)
+		if hammer {
+			n = 120 + r.Intn(120)
+		}
 		var h []LStep
 		for i := 0; i < n; i++ {
 			op := sim.Pick(r, []string{"get", "get", "get", "resolve", "deep", "xref", "rget", "rget", "rshallow", "clearcache", "reopen"})
+			if hammer {
+				op = sim.Pick(r, []string{"rget", "rget", "rget", "rshallow", "get", "deep"})
+			}
 			st := LStep{Op: op, Num: r.Intn(sp.N + 6)}
-			if i > 0 && r.Pct(25) {
+			if sp.Bulk > 0 && r.Pct(40) {
+				st.Num = r.Intn(sp.N + 4 + sp.Bulk)
+			}
+			if hammer && len(uncleanAt[rev]) > 0 && r.Pct(60) {
+				st.Num = sim.Pick(r, uncleanAt[rev])
+			} else if i > 0 && r.Pct(25) {
 				st.Num = h[r.Intn(len(h))].Num // repeat an earlier number
 			}
 			if op == "rget" && faulty && r.Pct(50) {
@@ -250,7 +311,7 @@ func (p *Prop) Generate(base uint64, index int, env *sim.Env) *sim.Case {
 
 // ---- values: every written value is unique (tagged by object, revision) ----
 
-const numKinds = 9
+const numKinds = 11
 
 func makeValue(w *pdfw.Writer, sp *Spec, rev int, op ObjOp, r *sim.Rand, set map[int]pdfw.Obj, inStm map[int]bool, lenInStm bool) pdfw.Obj {
 	tag := fmt.Sprintf("o%dr%ds%d", op.Num, rev, r.Intn(1000))
@@ -269,6 +330,12 @@ func makeValue(w *pdfw.Writer, sp *Spec, rev int, op ObjOp, r *sim.Rand, set map
 	case 5:
 		return pdfw.Dict{{"Tag", pdfw.Str{B: []byte(tag)}}, {"Serial", serial}, {"Root", pdfw.Ref{Num: sp.N + 1, Gen: 0}},
 			{"Sub", pdfw.Dict{{"K", pdfw.Name(tag)}, {"Pages", pdfw.Ref{Num: sp.N + 2, Gen: 0}}}}, {"Flag", false}}
+	case 9:
+		// a value that refers to another playground object, which a later revision may
+		// delete: a deep resolution of this one then fails below the top level
+		return pdfw.Dict{{"Tag", pdfw.Name(tag)}, {"Peer", pdfw.Ref{Num: firstPlay + op.Num%sp.N}}, {"Serial", serial}}
+	case 10:
+		return pdfw.Arr{pdfw.Name(tag), pdfw.Dict{{"Deep", pdfw.Arr{pdfw.Ref{Num: firstPlay + (op.Num+1)%sp.N}}}}, pdfw.Ref{Num: firstPlay + op.Num%sp.N}}
 	case 6, 7, 8:
 		plain := []byte("stream data " + tag + "\n" + strings.Repeat("pad "+tag+" ", r.Intn(4)*300))
 		st := &pdfw.Stream{Dict: pdfw.Dict{{"Tag", pdfw.Name(tag)}}, Plain: plain}
@@ -328,8 +395,16 @@ func buildHooked(sp *Spec, offsetHook func(rev, num, off int) int) (*pdfw.Built,
 		inStm := map[int]bool{}
 		var free []int
 		if rev == 0 {
+			for i := 0; i < sp.Bulk; i++ {
+				set[w.NextNum()] = 7*i + 3
+			}
 			set[cat] = pdfw.Dict{{"Type", pdfw.Name("Catalog")}, {"Pages", pdfw.Ref{Num: pgs}}}
 			set[pgs] = pdfw.Dict{{"Type", pdfw.Name("Pages")}, {"Kids", pdfw.Arr{}}, {"Count", 0}}
+		}
+		for _, br := range rp.BulkRanges {
+			for i := 0; i < br[1] && br[0]+i < sp.Bulk; i++ {
+				set[sp.N+3+br[0]+i] = 7*(br[0]+i) + 3 + 1000000*rev
+			}
 		}
 		vr := r.Split("rev" + strconv.Itoa(rev))
 		for _, op := range rp.Ops {
@@ -487,6 +562,7 @@ func (p *Prop) Execute(c *sim.Case, env *sim.Env) *sim.Result {
 	c.GetSpec(&sp)
 	res := &sim.Result{Status: "ok"}
 	built, commits, misdirected := buildCase(&sp)
+	hooked := misdirected
 	if misdirected {
 		res.Count("fault.xref-misdirect.injected", 1)
 	}
@@ -524,6 +600,44 @@ func (p *Prop) Execute(c *sim.Case, env *sim.Env) *sim.Result {
 			}
 			return e.Value, true
 		}
+		// unclean: the references reachable from object num lead to a free or missing object
+		// or back to an object already on the path; what a deep resolution makes of that is
+		// not judged (only that later answers are unaffected)
+		var unclean func(o pdfw.Obj, path map[int]bool) bool
+		unclean = func(o pdfw.Obj, path map[int]bool) bool {
+			switch v := o.(type) {
+			case pdfw.Ref:
+				e, ok := model[v.Num]
+				if !ok || e.Free || path[v.Num] {
+					return true
+				}
+				if md := sp.Misdirect; md != nil && rev >= md.Rev && v.Num == md.A && len(path) > 0 {
+					return true // the object behind the damaged entry, reached through a reference
+				}
+				if e.Aux != "" {
+					return false
+				}
+				path[v.Num] = true
+				u := unclean(e.Value, path)
+				delete(path, v.Num)
+				return u
+			case pdfw.Arr:
+				for _, x := range v {
+					if unclean(x, path) {
+						return true
+					}
+				}
+			case pdfw.Dict:
+				for _, kv := range v {
+					if unclean(kv.V, path) {
+						return true
+					}
+				}
+			case *pdfw.Stream:
+				return unclean(v.Dict, path)
+			}
+			return false
+		}
 		var rd *reader.Reader
 		open := func() bool {
 			oc := sim.Guard(t, 50_000_000, func() error { var err error; rd, err = reader.Open(path); return err })
@@ -552,7 +666,12 @@ func (p *Prop) Execute(c *sim.Case, env *sim.Env) *sim.Result {
 				where := fmt.Sprintf("rev %d step %d %s(%d) after %s", rev, si, st.Op, st.Num, lastOp)
 				states[fmt.Sprintf("%s>%s:%v:%v:%d", lastOp, st.Op, present, e.Free, e.InStm)] = true
 				damaged := sp.Misdirect != nil && rev >= sp.Misdirect.Rev && st.Num == sp.Misdirect.A
+				uncleanDeep := present && !e.Free && e.Aux == "" && unclean(pdfw.Ref{Num: st.Num}, map[int]bool{})
 				check := func(got core.Object, err error, deep bool) {
+					if deep && uncleanDeep {
+						res.Count("deep.closure_unclean_not_judged", 1)
+						return
+					}
 					if damaged {
 						res.Count("fault.xref-misdirect.fired", 1)
 						if err != nil {
@@ -572,6 +691,14 @@ func (p *Prop) Execute(c *sim.Case, env *sim.Env) *sim.Result {
 						}
 						if !ok || string(tn) != e.Aux {
 							fail(st.Op+":wrong-value", fmt.Sprintf("%s: expected %s, got %s", where, describe(e, present), trimS(fmt.Sprint(got), 100)))
+						} else if as := e.AuxStream; as != nil && as.Raw != nil && !hooked {
+							// the container is an object like any other: its stored bytes and what they
+							// decode to must be what the writer put there, whatever was looked up before
+							if !bytes.Equal(s.Data, as.Raw) {
+								fail(st.Op+":wrong-value", fmt.Sprintf("%s: %s: the stream holds %d bytes of data, the file has %d", where, describe(e, present), len(s.Data), len(as.Raw)))
+							} else if dec, derr := s.Decode(); derr != nil || !bytes.Equal(dec, as.Plain) {
+								fail(st.Op+":wrong-value", fmt.Sprintf("%s: %s: the stream does not decode to the payload that was written (%v)", where, describe(e, present), derr))
+							}
 						}
 					case !wantErr:
 						var d func(pdfw.Ref) (pdfw.Obj, bool)
@@ -798,6 +925,8 @@ func features(sp *Spec) []string {
 			add(!op.Del && op.Kind >= 6, "stream-object")
 		}
 	}
+	add(sp.Bulk > 0, "bulk")
+	add(sp.Bulk > 0 && sp.EOL == 1, "bulk+crlf")
 	add(anyS, "xref=stream")
 	add(anyS && anyT, "xref=mixed")
 	add(len(sp.Revs) > 1, "revisions")
